@@ -4,7 +4,7 @@
 # generated with codecs 1, 2, 3 are identical; regenerating from a moved and time-touched copy gives the same bytes; every ordered
 # pair (generating codec, correcting codec) repairs a damaged tree.
 import os, shutil, itertools, time
-from common import hx, unhx
+from common import hx, unhx, hxl
 from props import rs_common as R
 import eccrun as E
 
@@ -14,8 +14,10 @@ RULE = ('codec level: parity of codecs 1, 2, 3 and of the extracted model on eve
         'codecs 1,2,3; equal after copying the tree to another root and shifting every mtime; all 9 (generating, correcting) pairs on a '
         'tree damaged within capacity restore the originals and exit 0.  non-trivial = non-empty message / non-empty tree; distinct by '
         '(n, k, message) resp. (tool, parameters, tree id, pair).')
-TRUSTED_EXTRA = ['codec level as C11; tool level is decided by running the real tools (the entry format model is C09\'s): the determinism '
-                 'clause is a property predicate over observed bytes of two runs, not a Coq theorem']
+TRUSTED_EXTRA = ['codec level as C11; tool level: C12_body_deterministic / C12_listing_order_irrelevant (Proofs/GenDet.v) over the walk '
+                 'model of C07 and the entry format of C03/C08; tied here by the entry-order stream (entries of every generated ecc file = '
+                 'Walk.walk of the tree, original root and moved copy under an adversarial listing order) and by the determinism predicate '
+                 'over the observed bytes of two runs']
 ASSUMPTIONS = ['the comment preamble = the leading lines starting with "**" (argv, version, codec description)']
 
 
@@ -27,7 +29,7 @@ def preamble_len(ecc_bytes):
     return len(ecc_bytes) - len(E.body(ecc_bytes))
 
 
-def relocation(tool, params, files, rng_times, same_length):
+def relocation(tool, params, files, rng_times, same_length, octx=None):
     """generate from 'in' and from a moved, time-touched copy; same_length: the moved path and database name have the
     same string lengths as the original ones, so the comment preamble (which repeats argv) has the same length."""
     E.write_tree('in', files)
@@ -49,6 +51,8 @@ def relocation(tool, params, files, rng_times, same_length):
         rc2, _ = E.generate(tool, dst, db2, params + ['--ecc_algo', '3'])
     a = open('ecc3.db', 'rb').read() if os.path.exists('ecc3.db') else b''
     b = open(db2, 'rb').read() if os.path.exists(db2) else b''
+    if octx is not None:
+        entry_order(octx[0], octx[1], 'moved, shuffled listing', b, files, mirror=True)
     ia = open('ecc3.db.idx', 'rb').read() if os.path.exists('ecc3.db.idx') else b''
     ib = open(db2 + '.idx', 'rb').read() if os.path.exists(db2 + '.idx') else b''
     shift = preamble_len(b) - preamble_len(a)
@@ -57,6 +61,24 @@ def relocation(tool, params, files, rng_times, same_length):
     shutil.rmtree(dst)
     return {'rc': [str(rc1), str(rc2)], 'body_equal': rc1 == 0 and rc2 == 0 and E.body(a) == E.body(b) and len(E.body(a)) > 0,
             'idx_equal': ia == ib, 'idx_shift_only': shift_only and shift != 0, 'preamble_shift': shift}
+
+
+def entry_order(ctx, case, what, ecc_bytes, files, mirror=False):
+    """Tie of Proofs/GenDet.v (C12_body_deterministic): the entries of a generated ecc file are those of the model's
+    sorted walk over the tree, in that order (paths read back with the independent parser of streamlib)."""
+    from props import streamlib as S
+    names = sorted(p for p in files if not (mirror and p == '@mirror'))
+    got = [e['path'].decode('latin-1') for e in S.parse_pristine(E.body(ecc_bytes))]
+    m = ctx.model.run(['walk ' + hxl([p.encode('utf-8') for p in names])])[0]
+    want = [] if m == '.' else [unhx(x).decode('utf-8') for x in m.split(',')]
+    ctx.evaluations += 1
+    ctx.count('entry_order_cases')
+    if mirror and '@mirror' in files:
+        got = [g for g in got if not g.startswith('mirror/')]
+    if got != want:
+        ctx.disagree(dict(case, what='entry order: ' + what), want, got, what='entries of the generated ecc file != Walk.walk of the tree')
+    else:
+        ctx.traces += 1
 
 
 def times(seed):
@@ -179,10 +201,11 @@ def tool_level(ctx):
                                  'body_lengths': [len(gen[a][1] or b'') for a in (1, 2, 3)]})
                         continue
                     ctx.traces += 1
+                    entry_order(ctx, case, 'original root', open('ecc3.db', 'rb').read(), files)
                     # relocation + touch: same-length paths (identical preamble length) and different-length paths
                     for same in (True, False):
                         shutil.rmtree('in')
-                        r = relocation(tool, params, files, times(rng.randrange(10 ** 6)), same)
+                        r = relocation(tool, params, files, times(rng.randrange(10 ** 6)), same, octx=(ctx, case))
                         ctx.evaluations += 1
                         ctx.nontriv(key + ('moved', same))
                         if not r['body_equal'] or not r['idx_equal']:
